@@ -19,7 +19,7 @@ func init() {
 		Rule: "gradient monitor of Relu / LeakyRelu(m) / Sigmoid / Tanh / Softmax(Dim): (i) input as a tracked leaf over every shape of rank 0..R (sizes 1..3), every Softmax Dim, slopes {0.01 (nil config), 0, 0.5, 2, -0.3}, input classes {unique reals, exact zeros mixed with non-zeros, |x| up to 700}, random non-uniform upstream weighting G: the input's gradient must be finite, of the input's shape and equal G x derivative (1/0, 1/m, s(1-s), 1-tanh^2, p_i(g_i - sum_j p_j g_j) along Dim); at an input of exactly 0 Relu/LeakyRelu must lie in the closed interval between the two one-sided values. " +
 			"(ii) input as an intermediate of a random upstream tracked program (C01 generator): every tensor of the whole graph is compared with the reference tape. " +
 			"Softmax along a dimension of size > 1 goes through an implicit expansion of its normaliser: a failing case is attributed to the recorded finding only if EVERY gradient equals the reference tape run with BroadcastRule=Avg; size-1 Softmax and all other activations have no expansion and must match exactly. " +
-			"Non-trivial: >= 2 elements or an upstream program; distinct = (activation, config, shape, value class, variant).",
+			"Non-trivial: >= 2 elements or an upstream program; distinct = (activation, config, shape, value class, variant). Later addition: groups of same-rank shapes that collide under ad-hoc cache keys, back-propagated one after the other in one case.",
 		Assumptions: []string{"gradient comparison: |r-e| <= 1e-10*(1+max|e|) + 1e-9*max(|r|,|e|)"},
 		FloorQuick:  5000, FloorThor: 15000,
 		Run: runC15,
